@@ -11,6 +11,9 @@ for l in open('/verif/properties.jsonl'):
         break
 else:
     raise SystemExit('no such property')
+import os
+_tried = json.load(open('/tmp/tried.json')).get(pid, []) if os.path.exists('/tmp/tried.json') and len(sys.argv) > 4 else []
+TRIED = ("\nEarlier attempts by other people for this property (do NOT repeat these or close variants of them - find different mechanisms, different code locations, different triggers; prefer subtle ones that survive casual review):\n" + "\n".join("  * " + t for t in _tried) + "\n") if _tried else ""
 print(f"""You are helping to evaluate a verification tool by writing realistic *bugs*. You work ONLY inside the scratch git worktree {wt} (a checkout of the Python library `synced_collections`: dict/list-like collections transparently synced to JSON files / Redis / MongoDB / Zarr, with buffering and thread locks). Do NOT read or touch /verif or /repo or any other /tmp/wt-* directory; everything you need is in {wt}.
 
 Here is a semantic property that the library is supposed to satisfy:
@@ -21,6 +24,7 @@ Here is a semantic property that the library is supposed to satisfy:
   quantified over: {p['quantifier']['text']}
   (why the existing tests cannot settle it: {p['why_tests_cant']})
 
+{TRIED}
 Your task: produce {n} DIFFERENT, independent source changes to the library (files under {wt}/synced_collections/ only; do not edit tests) such that each change
   (a) BREAKS the property above (the library, with the change, violates the statement for at least one input / operation sequence / thread interleaving / crash point / history),
   (b) still imports fine and still passes the ENTIRE existing test suite, run exactly like this:
